@@ -34,8 +34,11 @@ MaxFlowCheck(e) ==
   ELSE IF n <= 10 /\ e.value # MinCut(n, A, s, t) THEN "MaxFlow.value_differs_from_min_cut"
   ELSE ""
 \* min-cost answers for a supply vector b
+\* domain of C09: no negative-cost cycle among the arcs with positive capacity (statement: "negative-cost arcs without negative cycles")
+InDomain == NoNegCycle(n, {<<A[i][1], A[i][2], A[i][4]>> : i \in {j \in 1..Len(A) : A[j][3] > 0}})
 CostCheck(e, b) ==
-  IF e.status = "INFEASIBLE" THEN (IF FeasibleRouting(b) THEN "Infeasible.but_feasible_flow_exists" ELSE "")
+  IF ~InDomain THEN ""
+  ELSE IF e.status = "INFEASIBLE" THEN (IF FeasibleRouting(b) THEN "Infeasible.but_feasible_flow_exists" ELSE "")
   ELSE IF e.status = "MAX_ITER" THEN ""
   ELSE IF e.status # "OPTIMAL" THEN "Return.unexpected_status"
   ELSE LET f == PairFlow(e.flows) x == Realise(n, A, f) IN
@@ -68,7 +71,7 @@ AssignCheck(e) ==
 Unit(v, amt) == [i \in 1..n |-> IF i - 1 = T.s THEN amt ELSE IF i - 1 = T.t THEN -amt ELSE 0]
 Check(e) ==
   IF e.e = "raise" THEN "Raise." \o e.what
-  ELSE IF e.e = "noreturn" THEN "NoReturn"
+  ELSE IF e.e = "noreturn" THEN (IF T.kind = "mincost" /\ ~InDomain THEN "" ELSE "NoReturn")
   ELSE IF e.fn = "max_flow" THEN MaxFlowCheck(e)
   ELSE IF e.fn = "min_cost_flow" THEN CostCheck(e, Unit(0, T.demand))
   ELSE IF e.fn = "network_simplex" THEN CostCheck(e, T.supplies)
